@@ -24,7 +24,10 @@ THEOREMS = ['C11_term_preserves_subspace', 'C11_trajectory_in_subspace', 'C11_le
             'C11_uniform_tracer_vertical', 'C11_uniform_tracer_horizontal', 'C11_uniform_tracer_stays_uniform',
             'C11_terms_are_the_integrators', 'C11_sim_time_advances_R', 'C11_hyps_satisfiable',
             'C11_fix_time_trajectory', 'C11_fix_time_round_half_even',
-            'C11_sw_mean_tendencies_vanish', 'C11_sw_explicit_top_zero', 'C11_sw_explicit_into_Supp']
+            'C11_sw_mean_tendencies_vanish', 'C11_sw_explicit_top_zero', 'C11_sw_explicit_into_Supp',
+            'C11_pe_explicit_top_zero', 'C11_pe_explicit_into_Supp', 'C11_pe_mean_tendencies_vanish',
+            'C11_pe_implicit_preserve_Supp', 'C11_primeq_trajectory_in_subspace',
+            'C11_primeq_leapfrog_trajectory_in_subspace', 'C11_primeq_means_conserved', 'C11_pe_hyps_satisfiable']
 LEVEL = 'proof'
 LEVEL_TEXT = ('machine-checked theorems (Coq) for every field, every vector space, every step term built from '
               'u, +, scalar *, F, G, G_inv (all integrators of time_integration.py are encoded as such terms, the '
@@ -84,6 +87,9 @@ SW_SUPP = [dict(grid=dict(M=3, L=4, I=8, J=5, spacing='gauss', impl='real'), lay
            dict(grid=dict(M=4, L=6, I=10, J=7, spacing='equiangular', impl='real', radius=2.5), layers=2, dens=[1.5, 1.0], orog=True)]
 
 
+PE_SUPP = [dict(impl='real', K=2), dict(impl='fast', K=3), dict(impl='real_L6', K=3)]
+
+
 def generate(ctx):
     rng = ctx.rng
     quick = ctx.tier == 'quick'
@@ -91,6 +97,10 @@ def generate(ctx):
     for n, cfg in enumerate(SW_SUPP):
         ctx.count('sw_supp:%s/%d layers' % (cfg['grid']['impl'], cfg['layers']))
         yield 'sw_supp', dict(cfg, seed=int(np.random.Generator(np.random.PCG64([ctx.seed, 1111, n])).integers(0, 2 ** 31)))
+    # --- the modelled whole-state primitive equations (Model/PrimEqFull.v): hypotheses and conclusions of C11_pe_* / C11_primeq_* ---
+    for n, cfg in enumerate(PE_SUPP):
+        ctx.count('pe_supp:%s/%d levels' % (cfg['impl'], cfg['K']))
+        yield 'pe_supp', dict(cfg, seed=int(np.random.Generator(np.random.PCG64([ctx.seed, 2222, n])).integers(0, 2 ** 31)))
     # --- correspondence of the term encodings ---------------------------------
     for name in SCHEMES:
         for rep in range(2 if quick else 6):
@@ -999,4 +1009,96 @@ def r_sw_supp(ctx, a):
                 ctx.exact(f'model pattern check (must_vanish) accepts the explicit {nm} tendency', 1, int(mo[0]))
 
 
-RUNNERS = {'sw_supp': r_sw_supp, 'toy_long': r_toy_long, 'fix_time_unit': r_fix_time_unit, 'toy': r_toy, 'scalar': r_scalar, 'pattern': r_pattern, 'traj': r_traj, 'unit': r_unit, 'time_unit': r_time_unit}
+def r_pe_supp(ctx, a):
+    """C11_pe_* / C11_primeq_* on the implementation: the named hypotheses (pe_H_p_support, pe_H_deriv_mask, orography in
+    the mask, pe_H_inv0_div_rows) as table obligations on the implementation's own tables and operators, and the
+    conclusions (a) pattern, (b) (0,0) coefficients, (c) implicit terms / inverse keep the pattern, on the REAL
+    PrimitiveEquations.explicit_terms / implicit_terms / implicit_inverse for ARBITRARY states (energy at the top
+    wavenumber, non-zero means, also entries outside the truncation), with an orography that has energy at the top
+    wavenumber and one tracer."""
+    m = dyn.mods(); pe = m['pe']; jnp = m['jnp']
+    impl = a['impl']; K = int(a['K']); gd = GRIDS[impl]
+    rng, g, c, eq = _setup('dry', impl, a['seed'], K=K, opts={'oro': 'untruncated'})
+    R, C = g.modal_shape; L = gd['L']
+    mask = _mask_indep(g, gd); req = _required_zero(g, gd)
+    ctx.oracle('grid.mask is the triangular truncation of the layout definition', bool(np.array_equal(mask, np.asarray(g.mask).astype(bool))))
+    ints = _grid_ints(g, gd)
+    # pe_H_p_support: exact zeros of the basis functions f[i, a] * p[a, j, l] outside the mask
+    bs = g.spherical_harmonics.basis
+    ft = np.asarray(bs.f, dtype=np.float64)
+    if ft.ndim == 3: ft = np.reshape(ft, (ft.shape[0], -1), order='F')
+    pt = np.asarray(bs.p, dtype=np.float64)
+    if gd['impl'] != 'real': pt = np.repeat(pt, 2, axis=0)
+    prod = ft[:, :, None, None] * pt[None]                                # (I, R, J, L)
+    ctx.table_obligation('pe_H_p_support: the basis functions f[i,a] * p[a,j,l] vanish exactly outside the triangular mask',
+                         bool(prod.shape[1] == R and prod.shape[3] == C and np.all(np.transpose(prod, (1, 3, 0, 2))[~mask] == 0.0)))
+    ok = True
+    for _ in range(4):
+        x = rng.integers(-16, 17, size=(2, R, C)).astype(np.float64) / 16 * mask
+        for fn in (g.div_cos_lat, g.curl_cos_lat):
+            y = np.asarray(fn((x[0], x[1]), clip=False), dtype=np.float64)
+            ok = ok and bool(np.all(y[:, :L][~mask[:, :L]] == 0.0))          # padded columns l >= L (fast layout) are cleared by the final clip
+    ctx.table_obligation('pe_H_deriv_mask: div_cos_lat / curl_cos_lat (clip=False) of arrays vanishing outside the mask vanish outside the mask for l < L (exact zeros)', ok)
+    oro = np.asarray(eq.orography, dtype=np.float64)
+    ctx.table_obligation('pe_masked orography: the modal orography handed to the equation vanishes outside the mask', bool(np.all(oro[~mask] == 0.0)))
+    ctx.oracle('input distribution: the orography has energy at the top total wavenumber', bool(np.abs(oro[:, L - 1]).max() > 0))
+    eta = float(a.get('eta', 0.0625))
+    imat = pe._get_implicit_term_matrix(eta, eq.coords, eq.reference_temperature, eq.physics_specs.kappa, eq.physics_specs.R)
+    inv0 = np.linalg.inv(imat)[0]
+    want = np.concatenate([np.eye(K), np.zeros((K, K + 1))], axis=1)
+    ctx.table_obligation('pe_H_inv0_div_rows: the divergence rows of inv(implicit matrix) at total wavenumber 0 are the unit rows [I 0 0]',
+                         bool(np.all(np.abs(inv0[:K] - want) <= 1e-13 * max(1.0, np.abs(inv0).max()))), {'rows': inv0[:K].tolist()})
+    amp = dict(vorticity=0.1, divergence=0.05, temperature_variation=2.0, log_surface_pressure=0.05, q=0.01)
+    def state(mode):
+        def fld(name, lead):
+            r = rng.integers(-16, 17, size=(lead, R, C)).astype(np.float64) / 16
+            r = np.where(r == 0, 0.5, r) * amp[name]
+            return jnp.asarray(r if mode == 'dense' else r * mask)         # 'inmask': all l < L inside the triangle, means non-zero
+        return pe.State(vorticity=fld('vorticity', K), divergence=fld('divergence', K),
+                        temperature_variation=fld('temperature_variation', K),
+                        log_surface_pressure=fld('log_surface_pressure', 1), tracers={'q': fld('q', K)})
+    def fields(st):
+        return [('vorticity', st.vorticity), ('divergence', st.divergence), ('temperature_variation', st.temperature_variation),
+                ('log_surface_pressure', st.log_surface_pressure), ('tracer q', st.tracers['q'])]
+    for mode in ('inmask', 'dense'):
+        st = state(mode)
+        v0 = np.asarray(st.vorticity); d0 = np.asarray(st.divergence)
+        ctx.oracle('input distribution: the input state violates the invariants (top wavenumber populated, non-zero means)',
+                   bool(np.abs(v0[:, :, L - 1]).max() > 0 and np.all(v0[:, 0, 0] != 0) and np.all(d0[:, 0, 0] != 0)))
+        res = eq.explicit_terms(st)
+        for nm, t in fields(res):
+            t = np.asarray(t, dtype=np.float64)
+            ctx.oracle(f'primitive equations: explicit {nm} tendency of ANY state is exactly zero at the top total wavenumber',
+                       bool(np.all(t[:, :, L - 1:] == 0.0)), {'max': float(np.abs(t[:, :, L - 1:]).max())})
+            ctx.oracle(f'primitive equations: explicit {nm} tendency of ANY state is exactly zero outside the triangular mask',
+                       bool(np.all(t[:, ~mask] == 0.0)))
+            ctx.oracle(f'primitive equations: explicit {nm} tendency is finite and not identically zero', bool(np.all(np.isfinite(t)) and np.abs(t).max() > 0))
+            for k in range(t.shape[0]):
+                mo = ctx.model.call(2, ints, [t[k].ravel()])
+                ctx.exact(f'model pattern check (must_vanish) accepts the explicit {nm} tendency', 1, int(mo[0]))
+        for nm in ('vorticity', 'divergence'):
+            t = np.asarray(getattr(res, nm), dtype=np.float64)
+            ctx.oracle(f'primitive equations: (0,0) coefficient of the explicit {nm} tendency is exactly zero on every level (any state)',
+                       bool(np.all(t[:, 0, 0] == 0.0)), {'values': t[:, 0, 0].tolist()})
+        im = eq.implicit_terms(st)
+        for nm in ('vorticity', 'divergence'):
+            t = np.asarray(getattr(im, nm), dtype=np.float64)
+            ctx.oracle(f'primitive equations: (0,0) coefficient of the implicit {nm} tendency is exactly zero on every level (any state)',
+                       bool(np.all(t[:, 0, 0] == 0.0)), {'values': t[:, 0, 0].tolist()})
+    # (c) implicit terms / inverse keep the pattern; (d) the inverse passes the means
+    keep = ~req
+    st = state('dense')
+    st = pe.State(**{k: (jnp.asarray(np.asarray(v) * keep) if k != 'tracers' else {'q': jnp.asarray(np.asarray(v['q']) * keep)})
+                     for k, v in st.asdict().items() if k != 'sim_time'})
+    for opname, out in (('implicit_terms', eq.implicit_terms(st)), ('implicit_inverse', eq.implicit_inverse(st, eta))):
+        for nm, t in fields(out):
+            t = np.asarray(t, dtype=np.float64)
+            ctx.oracle(f'primitive equations: {opname} maps the pattern to itself ({nm}: exact zeros)', bool(np.all(t[:, req] == 0.0)))
+    inv = eq.implicit_inverse(st, eta)
+    ctx.oracle('primitive equations: implicit_inverse passes the (0,0) vorticity coefficients untouched (exact)',
+               bool(np.array_equal(np.asarray(inv.vorticity)[:, 0, 0], np.asarray(st.vorticity)[:, 0, 0])))
+    ctx.oracle_close('primitive equations: implicit_inverse passes the (0,0) divergence coefficients (to rounding)',
+                     np.asarray(inv.divergence)[:, 0, 0], np.asarray(st.divergence)[:, 0, 0], scale=1.0)
+
+
+RUNNERS = {'pe_supp': r_pe_supp, 'sw_supp': r_sw_supp, 'toy_long': r_toy_long, 'fix_time_unit': r_fix_time_unit, 'toy': r_toy, 'scalar': r_scalar, 'pattern': r_pattern, 'traj': r_traj, 'unit': r_unit, 'time_unit': r_time_unit}
